@@ -286,7 +286,7 @@ impl Check for C12 {
     }
     fn generate(&self, g: &GenParams, emit: &mut dyn FnMut(Case)) {
         let mut r = g.rng(12);
-        let n = g.count(40_000, 1_600_000);
+        let n = g.count(200_000, 10_000_000);
         for k in 0..n {
             let mut o = DocOpts::random(&mut r);
             o.dup_keys = k % 7 == 0;
